@@ -155,8 +155,10 @@ def _random_tracks(draw, ctx):
             tick += max(1, gap)
         mask = draw(st.one_of(st.integers(0, 31), st.sampled_from([1, 2, 4, 8, 16, 0])))
         fl = draw(st.integers(0, 7))
-        tap = 0 if fl in (5, 7) else None
-        forced = 0 if fl in (6, 7, 4) and i > 0 else None
+        # the length written on a flag line means nothing, whatever it is
+        flen = st.sampled_from([0, 0, 0, 1, 37, thr, thr + 1, 10 * res, 10 ** 6])
+        tap = draw(flen) if fl in (5, 7) else None
+        forced = draw(flen) if fl in (6, 7, 4) and i > 0 else None
         sus = draw(st.one_of(st.just(0), st.just(0), st.sampled_from([1, thr, thr + 1, 2 * thr, 10 * res]),
                              st.integers(0, 3 * thr + 3)))
         lens = [sus] * 5
